@@ -46,6 +46,11 @@ structure Entry where
 
 def i32 (b : Bytes) : Option CVal := (decNat b).map fun n => .int32 (n % 4294967296)
 
+/-- `0x3e7` / `3e7`: base 16 either way -/
+def luid (b : Bytes) : Option Nat :=
+  let b' := match b with | 48 :: 120 :: r => r | r => r
+  (hexNat b').map (· % 4294967296)
+
 def flag : List Bytes → Option (List CVal)
   | [p] => some [.int32 (if p == "true".toUTF8.toList then 1 else 0)]
   | _ => none
@@ -95,6 +100,11 @@ def table : List Entry := [
   ⟨"config.spawn64", "CommandConfig", "DEMON_CONFIG_INJECTION_SPAWN64", fun ps => match ps with | [p] => (wstr p).map ([·]) | _ => none⟩,
   ⟨"config.spawn32", "CommandConfig", "DEMON_CONFIG_INJECTION_SPAWN32", fun ps => match ps with | [p] => (wstr p).map ([·]) | _ => none⟩,
   ⟨"config.killdate", "CommandConfig", "DEMON_CONFIG_KILLDATE", fun ps => match ps with | [p] => if p == [48] then some [.int64 0] else none | _ => none⟩,   -- [48] = the text "0"
+  -- kerberos: a logon session id is hexadecimal text, with or without "0x" in front
+  ⟨"kerb.luid", "CommandKerberos", "KERBEROS_COMMAND_LUID", fun ps => if ps.isEmpty then some [] else none⟩,
+  ⟨"kerb.klist", "CommandKerberos", "KERBEROS_COMMAND_KLIST", fun ps => match ps with | [l] => (luid l).map fun n => [.int32 1, .int32 n] | _ => none⟩,
+  ⟨"kerb.purge", "CommandKerberos", "KERBEROS_COMMAND_PURGE", fun ps => match ps with | [l] => (luid l).map fun n => [.int32 n] | _ => none⟩,
+  ⟨"kerb.ptt", "CommandKerberos", "KERBEROS_COMMAND_PTT", fun ps => match ps with | [t, l] => (luid l).map fun n => [.bytes t, .int32 n] | _ => none⟩,
   ⟨"config.workinghours", "CommandConfig", "DEMON_CONFIG_WORKINGHOURS", fun ps => match ps with
     | [p] => if p == [48] then some [.int32 0] else (hoursWord (p.map (·.toNat))).map fun w => [.int32 w]
     | _ => none⟩
